@@ -158,6 +158,26 @@ func writeFile(dir string, f file, scratch string) {
 	must(os.Chtimes(p, tm(f.Mtime), tm(f.Mtime)))
 }
 
+// leftoverName: the names killed writers leave behind — os.CreateTemp patterns of the sidecar writer and of the shard
+// writer, and fixed ".tmp" suffixes. All end in ".tmp": cleanup removes them at the end of a run.
+func leftoverName(base string, kind int) string {
+	switch kind % 8 {
+	case 6, 7:
+		return base + ".meta.tmp"
+	case 0:
+		return base + ".meta.tmp"
+	case 1:
+		return base + ".meta.1234567.tmp"
+	case 2:
+		return base + ".tmp"
+	case 3:
+		return base + ".987654321.tmp"
+	case 4:
+		return base + ".meta.tmp.tmp"
+	}
+	return "lost+found-" + strconv.Itoa(kind) + ".tmp"
+}
+
 func materialise(root string, s dirState, scratch string) {
 	must(os.MkdirAll(filepath.Join(root, ".trash"), 0o755))
 	for _, f := range s.Index {
@@ -181,8 +201,10 @@ func applyEvent(root string, ev event, scratch string) bool {
 	case "reindex", "tomb":
 		for _, f := range cur {
 			if f.Compound && alive(f, ev.ID) {
-				must(index.SetTombstone(filepath.Join(root, baseName(f)), uint32(ev.ID)))
-				changed = true
+				// (a writer that fails, e.g. on a leftover temporary file, gives up: the event is then a no-op)
+				if index.SetTombstone(filepath.Join(root, baseName(f)), uint32(ev.ID)) == nil {
+					changed = true
+				}
 			}
 		}
 		if ev.Kind == "reindex" {
@@ -205,8 +227,9 @@ func applyEvent(root string, ev event, scratch string) bool {
 			}
 			for _, rp := range f.Repos {
 				if rp.ID == ev.ID && rp.Tomb {
-					must(index.UnsetTombstone(filepath.Join(root, baseName(f)), uint32(ev.ID)))
-					changed = true
+					if index.UnsetTombstone(filepath.Join(root, baseName(f)), uint32(ev.ID)) == nil {
+						changed = true
+					}
 					break
 				}
 			}
@@ -236,6 +259,16 @@ func applyEvent(root string, ev event, scratch string) bool {
 			changed = true
 			if ev.One {
 				break
+			}
+		}
+	case "leftover":
+		for _, f := range cur {
+			for _, rp := range f.Repos {
+				if rp.ID == ev.ID {
+					must(os.WriteFile(filepath.Join(root, leftoverName(baseName(f), ev.N)), []byte("{"), 0o600))
+					changed = true
+					break
+				}
 			}
 		}
 	case "rmshard":
@@ -383,7 +416,7 @@ func find(fs []file, c bool, k int) *file {
 	return nil
 }
 
-func oracle(pre dirState, assigned []int, now int64, post dirState) string {
+func oracle(pre dirState, assigned []int, now int64, merging bool, post dirState) string {
 	isAssigned := map[int]bool{}
 	for _, id := range assigned {
 		isAssigned[id] = true
@@ -398,9 +431,11 @@ func oracle(pre dirState, assigned []int, now int64, post dirState) string {
 	}
 	// names under which each repository is alive in the index: a repository "disagrees on its name" if there are two
 	namesOf := map[int]map[int]bool{}
+	aliveCount := map[int]int{}
 	for _, f := range pre.Index {
 		for _, r := range f.Repos {
 			if !r.Tomb {
+				aliveCount[r.ID]++
 				if namesOf[r.ID] == nil {
 					namesOf[r.ID] = map[int]bool{}
 				}
@@ -420,9 +455,17 @@ func oracle(pre dirState, assigned []int, now int64, post dirState) string {
 				continue
 			}
 			if g := find(post.Index, f.Compound, f.Key); g == nil || !alive(*g, id) {
+				// the known class: the file also held a repository that had to leave it AND that the code cannot tombstone
+				// (shard merging off; or merging on and the unassigned repository has a second shard)
 				foreign := false
 				for _, r := range f.Repos {
-					if !r.Tomb && (!isAssigned[r.ID] || len(namesOf[r.ID]) > 1) {
+					if r.Tomb {
+						continue
+					}
+					if !merging && (!isAssigned[r.ID] || len(namesOf[r.ID]) > 1) {
+						foreign = true
+					}
+					if merging && !isAssigned[r.ID] && len(namesOf[r.ID]) <= 1 && aliveCount[r.ID] >= 2 {
 						foreign = true
 					}
 				}
@@ -494,7 +537,14 @@ func oracle(pre dirState, assigned []int, now int64, post dirState) string {
 
 // ---------- generator ----------
 
+// leftover: a temporary file a killed writer left next to shard number Of of Init.Index (Of = -1: unrelated name)
+type leftover struct {
+	Of   int
+	Kind int // see leftoverName
+}
+
 type scenario struct {
+	Leftovers []leftover `json:",omitempty"`
 	Init     dirState
 	Merging  bool
 	Steps    []step
@@ -516,6 +566,8 @@ type step struct {
 //	tomb / untomb   SetTombstone / UnsetTombstone of ID in the compound shards, by another writer of the sidecar
 //	rename   mergeMeta: the .meta of the shards of ID gets a new repository name (all of them, or only the first)
 //	rmshard  the indexer removed the simple shards of ID
+//	leftover a writer of the sidecar or of the shard of ID was killed: its temporary file (name kind N) stays next to every
+//	         shard listing ID
 //	scan     listIndexed (the same process scans the directory, as the server loop does before every cleanup)
 type event struct {
 	Kind    string
@@ -592,6 +644,9 @@ func genScenario(r *gen.Rand) scenario {
 		}
 	}
 	sc.Init.Tmps = gen.Pick(r, []int{0, 0, 1, 2})
+	for k := gen.Pick(r, []int{0, 0, 1, 2}); k > 0 && len(sc.Init.Index) > 0; k-- {
+		sc.Leftovers = append(sc.Leftovers, leftover{Of: r.Intn(len(sc.Init.Index)+1) - 1, Kind: r.Intn(8)})
+	}
 	for s := r.Range(1, 3); s > 0; s-- {
 		var st step
 		for id := 1; id <= nids+1; id++ {
@@ -636,6 +691,9 @@ func genEvent(r *gen.Rand, id, n int) event {
 	case 6, 7:
 		return event{Kind: "rename", ID: id, NewName: id + 10, One: r.Bool()}
 	case 8:
+		if r.Bool() {
+			return event{Kind: "leftover", ID: id, N: r.Intn(8)}
+		}
 		return event{Kind: "rmshard", ID: id}
 	}
 	return event{Kind: "scan"}
@@ -691,6 +749,9 @@ func genLifecycle(r *gen.Rand) scenario {
 		})
 		if r.Chance(1, 3) {
 			st.Events = append(st.Events, event{Kind: "scan"})
+		}
+		if r.Chance(1, 2) { // some writer of the compound shard's sidecar was killed since the last cleanup
+			st.Events = append(st.Events, event{Kind: "leftover", ID: r.Range(1, members), N: r.Intn(8)})
 		}
 		st.Events = append(st.Events, ev)
 		switch r.Intn(5) {
@@ -751,6 +812,14 @@ func main() {
 		must(err)
 		defer os.RemoveAll(root)
 		materialise(root, sc.Init, scratch)
+		for _, lo := range sc.Leftovers {
+			base := "unrelated"
+			if lo.Of >= 0 && lo.Of < len(sc.Init.Index) {
+				base = baseName(sc.Init.Index[lo.Of])
+			}
+			must(os.WriteFile(filepath.Join(root, leftoverName(base, lo.Kind)), []byte("{"), 0o600))
+			w.Count("leftover-temp-files", 1)
+		}
 		for i, st := range sc.Steps {
 			for _, a := range st.Add {
 				writeFile(root, a, scratch)
@@ -806,7 +875,11 @@ func main() {
 			}
 			pre, anomalies := readDir(root)
 			if len(anomalies) > 0 {
-				panic(fmt.Sprint("materialisation: ", anomalies))
+				if i == 0 {
+					panic(fmt.Sprint("materialisation: ", anomalies))
+				}
+				// left behind by the previous cleanup (already reported on that case): carry on with what is there
+				w.Count("pre-state-with-anomaly-from-previous-cleanup", 1)
 			}
 			m := 0
 			if sc.Merging {
@@ -827,7 +900,7 @@ func main() {
 				os.Exit(4)
 			}
 			post, anomalies := readDir(root)
-			verdict := oracle(pre, st.Assigned, st.Now, post)
+			verdict := oracle(pre, st.Assigned, st.Now, sc.Merging, post)
 			if verdict == "" && len(anomalies) > 0 {
 				verdict = anomalies[0]
 			}
